@@ -3,7 +3,6 @@
 package stateroot_test
 
 import (
-	"errors"
 	"testing"
 
 	"github.com/nspcc-dev/neo-go/pkg/config"
